@@ -57,7 +57,8 @@ fn anchors_by_coord(s: &State) -> std::collections::BTreeMap<P, Option<u64>> {
 /// triangle, keyed by its canonical oriented coordinate triple.
 fn edge_face_anchors(s: &State, mv: &MeshView) -> (std::collections::BTreeMap<(P, P), Option<u64>>, std::collections::BTreeMap<Vec<P>, Option<u64>>) {
     let (pe, pf_) = (s.partition(1), s.partition(2));
-    let mut em = std::collections::BTreeMap::new();
+    let mut em: std::collections::BTreeMap<(P, P), (u32, Option<u64>)> = std::collections::BTreeMap::new();
+    let mut ambiguous = BTreeSet::new();
     let mut fm = std::collections::BTreeMap::new();
     for f in &mv.faces {
         if mask_has(s.kinds, K_FA) {
@@ -66,10 +67,17 @@ fn edge_face_anchors(s: &State, mv: &MeshView) -> (std::collections::BTreeMap<(P
         if mask_has(s.kinds, K_EA) {
             for (i, &d) in f.darts.iter().enumerate() {
                 let (p, q) = (f.pts[i], f.pts[(i + 1) % f.pts.len()]);
-                em.insert((p.min(q), p.max(q)), s.attrs[K_EA][pe[d as usize] as usize]);
+                let (key, id) = ((p.min(q), p.max(q)), pe[d as usize]);
+                if let Some((other, _)) = em.insert(key, (id, s.attrs[K_EA][id as usize])) {
+                    if other != id {
+                        ambiguous.insert(key);
+                    }
+                }
             }
         }
     }
+    // two distinct edges between the same two points cannot be told apart by coordinates
+    let em = em.into_iter().filter(|(k, _)| !ambiguous.contains(k)).map(|(k, (_, a))| (k, a)).collect();
     (em, fm)
 }
 
@@ -364,8 +372,17 @@ pub fn check_remesh(pre: &State, post: &State, op: &Op, res: &Result<Res, String
             out.push(fnd("C15", "removal-flags-changed", format!("{op:?}: removal flags changed")));
         }
     }
-    if let Some(m) = adjacency_mismatch(post, &mvp) {
-        out.push(fnd("C15", "adjacency-differs-from-geometry", format!("{op:?}: {m}")));
+    // (a swap whose other diagonal already is an edge of the mesh — an end point of degree 3 —
+    // yields, by the statement's own description of the result, two sides between the same two
+    // points: darts can then no longer be identified by their end points)
+    let expected_has_double_side = {
+        let mut seen = BTreeSet::new();
+        !got.iter().all(|t| (0..3).all(|i| seen.insert((t[i], t[(i + 1) % 3]))))
+    };
+    if !expected_has_double_side {
+        if let Some(m) = adjacency_mismatch(post, &mvp) {
+            out.push(fnd("C15", "adjacency-differs-from-geometry", format!("{op:?}: {m}")));
+        }
     }
     let (v0, e0, f0) = (ctx.mv.n_vertices as i64, ctx.mv.n_edges as i64, ctx.mv.faces.len() as i64);
     let (v1, e1, f1) = (mvp.n_vertices as i64, mvp.n_edges as i64, mvp.faces.len() as i64);
